@@ -3156,7 +3156,7 @@ namespace awkward {
               bytecodes_pointer_where()++;
               recursion_current_depth_ -= exitdepth;
               while (do_current_depth_ != 0  &&
-                     do_abs_recursion_depth() != recursion_current_depth_) {
+                     do_abs_recursion_depth() >= recursion_current_depth_) {
                 do_current_depth_--;
               }
 
